@@ -54,7 +54,7 @@ def _ctx_args(ctx: dict, skip=()) -> list[str]:
     for k, v in ctx.items():
         if k in skip:
             continue
-        out += ["--context", f"{k}={json.dumps(v)}"]
+        out += ["--context", f"{k}={harness.cli_value(v)}"]
     return out
 
 
